@@ -123,6 +123,31 @@ MUTANTS = [
     ('M36', 'C13', 'ansistr-iadd-drops-str-operand-style', A,
      "        # Can't add in place - always return a new instance\n        return (self + value)\n",
      "        # Can't add in place - always return a new instance\n        return (self + (value if not isinstance(value, AnsiStr) else value.base_str))\n"),
+    # gaps named by a completeness review of the checks (DESIGN 11.15): defaults, counts, bounds, explicit step
+    ('M37', 'C16', 'unformat-matching-default-match-case-true', A,
+     "        regex:bool=False,\n        match_case=False,\n        count=-1\n    ):\n        '''\n        Remove the given formatting",
+     "        regex:bool=False,\n        match_case=True,\n        count=-1\n    ):\n        '''\n        Remove the given formatting"),
+    ('M38', 'C16', 'format-matching-only-minus-one-means-all', A,
+     "            if count < 0 or count > 0:\n                self.apply_formatting_for_match(format, match)\n",
+     "            if count == -1 or count > 0:\n                self.apply_formatting_for_match(format, match)\n"),
+    ('M39', 'C11', 'replace-only-minus-one-means-all', A,
+     "        while (count < 0 or count > 0) and idx >= 0:\n",
+     "        while (count == -1 or count > 0) and idx >= 0:\n"),
+    ('M40', 'C17', 'find-settings-end-not-clamped', A,
+     "        start = self._slice_val_to_idx(start, 0)\n        end = self._slice_val_to_idx(end, len(self._s))\n\n        # Check for invalid start/end\n",
+     "        start = self._slice_val_to_idx(start, 0)\n        end = self._slice_val_to_idx(end, len(self._s)) if (end is None or end < 0) else end\n\n        # Check for invalid start/end\n"),
+    ('M41', 'C04', 'explicit-step-one-rejected', A,
+     "            if val.step is not None and val.step != 1:\n",
+     "            if val.step is not None:\n"),
+    ('M42', 'C12', 'right-justify-fill-cannot-be-an-align-char', A,
+     "        match = re.search(r'^(.?)([+-]?)>([0-9]*)$', string_format)\n",
+     "        match = re.search(r'^([^<>^]?)([+-]?)>([0-9]*)$', string_format)\n"),
+    ('M43', 'C15', 'one-ansiformat-member-out-of-range', F,
+     "    FG_ORANGE_RED=_AnsiControlFn.fg_color256(202)\n",
+     "    FG_ORANGE_RED=_AnsiControlFn.fg_color256(2020)\n"),
+    ('M44', 'C01', 'code-95-registered-as-background', PA,
+     "    95: (AnsiParamEffect.FG_COLOR, AnsiParamEffectFn.APPLY_SETTING),\n",
+     "    95: (AnsiParamEffect.BG_COLOR, AnsiParamEffectFn.APPLY_SETTING),\n"),
 ]
 
 
